@@ -33,6 +33,8 @@ type Prog struct {
 	ghostSets    map[*ssa.Function]map[string]bool
 	findings     map[string][]KnownFinding // by obligation name
 	immutableSorts map[string]bool         // heap sorts of struct types that are never written after construction
+	lateText     string
+	lateTypes    []string
 }
 
 func loadProg(repo, verifDir string) (*Prog, error) {
@@ -195,6 +197,24 @@ func loadProg(repo, verifDir string) (*Prog, error) {
 	if err != nil {
 		return nil, err
 	}
+	// late prelude: uninterpreted functions over the datatypes generated for Go struct types
+	if lb, err := os.ReadFile(filepath.Join(verifDir, "lib", "late.smt2")); err == nil {
+		p.lateText = string(lb)
+		lp, err := parsePrelude(p.lateText)
+		if err != nil {
+			return nil, err
+		}
+		for k, v := range lp.sigs {
+			p.prelude.sigs[k] = v
+		}
+		for k, v := range lp.defs {
+			p.prelude.defs[k] = v
+		}
+		thePrelude = p.prelude // parsePrelude sets the global to the last file parsed
+		for _, m := range regexp.MustCompile(`T\.([A-Za-z0-9_]+)\.([A-Za-z0-9_]+)`).FindAllStringSubmatch(p.lateText, -1) {
+			p.lateTypes = append(p.lateTypes, m[1]+"."+m[2])
+		}
+	}
 	return p, nil
 }
 
@@ -228,6 +248,17 @@ func (p *Prog) contractFor(fn *ssa.Function) *FuncContract {
 }
 
 func (p *Prog) libContract(name string, nargs int) *FuncContract {
+	if strings.HasPrefix(name, "dynamic field ") {
+		if fc, ok := p.cs.Funcs[name]; ok && fc.Lib {
+			return fc
+		}
+		if i := strings.LastIndex(name, "."); i > 0 {
+			if fc, ok := p.cs.Funcs[name[:i]+".*"]; ok && fc.Lib {
+				return fc
+			}
+		}
+		return nil
+	}
 	if fc, ok := p.cs.Funcs[fmt.Sprintf("%s/%d", name, nargs)]; ok && fc.Lib {
 		return fc
 	}
@@ -263,8 +294,18 @@ var setsRe = regexp.MustCompile(`^(\$[A-Za-z0-9_]+)\s*=\s*(.*)$`)
 // ---- running one unit ---------------------------------------------------------------
 
 func (p *Prog) newUnit(fn *ssa.Function) *Unit {
+	u := p.newUnit0(fn)
+	for _, tn := range p.lateTypes {
+		if t := p.lookupType(tn); t != nil {
+			u.ss.sortOf(t) // make sure the datatype is declared before the late prelude
+		}
+	}
+	return u
+}
+
+func (p *Prog) newUnit0(fn *ssa.Function) *Unit {
 	return &Unit{p: p, fn: fn, fc: p.contractFor(fn), ss: newSorts(), loops: map[*ssa.Function]map[*ssa.BasicBlock]*Loop{},
-		ordinals: map[ssa.Instruction]int{}, entryVals: map[string]Term{}, escCache: map[*ssa.Alloc]bool{}, usedLib: map[string]bool{}, declared: map[string]bool{}, usedBounded: map[string]string{}, usedEnsures: map[string]bool{}}
+		ordinals: map[ssa.Instruction]int{}, entryVals: map[string]Term{}, escCache: map[*ssa.Alloc]bool{}, usedLib: map[string]bool{}, declared: map[string]bool{}, usedBounded: map[string]string{}, usedEnsures: map[string]bool{}, dynAlias: map[string]string{}}
 }
 
 func (p *Prog) verifyFunc(fn *ssa.Function) (u *Unit) {
@@ -523,56 +564,156 @@ func (p *Prog) ghostsSetBy(fn *ssa.Function) map[string]bool {
 			if !ok {
 				continue
 			}
-			c := ci.Common()
-			if _, isB := c.Value.(*ssa.Builtin); isB {
-				continue
+			for k := range p.ghostsSetByCall(ci.Common()) {
+				m[k] = true
 			}
-			name := calleeName(c)
-			if fc := p.libContract(name, len(c.Args)); fc != nil || p.cs.Funcs[fmt.Sprintf("%s/%d", name, len(c.Args))] != nil {
-				if fc == nil {
-					fc = p.cs.Funcs[fmt.Sprintf("%s/%d", name, len(c.Args))]
-				}
-				for _, cl := range fc.Clauses {
+		}
+	}
+	return m
+}
+
+// ghostsSetByCall: ghost variables one call may set ("*" if unknown code may run).
+func (p *Prog) ghostsSetByCall(c *ssa.CallCommon) map[string]bool {
+	m := map[string]bool{}
+	if _, isB := c.Value.(*ssa.Builtin); isB {
+		return m
+	}
+	name := calleeName(c)
+	fc := p.libContract(name, len(c.Args))
+	if fc == nil {
+		if f2 := p.cs.Funcs[fmt.Sprintf("%s/%d", name, len(c.Args))]; f2 != nil && f2.Lib {
+			fc = f2
+		}
+	}
+	if fc == nil && name == "dynamic" {
+		// a call through a function value read from a struct field: any of the callbacks declared for such fields
+		for k, f := range p.cs.Funcs {
+			if f.Lib && strings.HasPrefix(k, "dynamic field ") {
+				for _, cl := range f.Clauses {
 					if cl.Kind == "sets" {
 						if mm := setsNameRe.FindStringSubmatch(cl.Expr); mm != nil {
 							m[mm[1]] = true
 						}
 					}
 				}
-				continue
 			}
-			callee := c.StaticCallee()
-			if callee == nil {
-				if c.IsInvoke() {
-					if impls, ok := p.closedFor(c.Value.Type()); ok {
-						for _, T := range impls {
-							if sel := p.prog.MethodSets.MethodSet(T).Lookup(c.Method.Pkg(), c.Method.Name()); sel != nil {
-								if mv := p.prog.MethodValue(sel); mv != nil {
-									for k := range p.ghostsSetBy(mv) {
-										m[k] = true
-									}
-								}
-							}
-						}
-						continue
-					}
-				}
+		}
+		if _, named := c.Value.Type().(*types.Named); !named {
+			// could also be an arbitrary function value
+			if _, isLoad := c.Value.(*ssa.UnOp); !isLoad {
 				m["*"] = true
-				continue
 			}
-			if callee.Pkg != nil && strings.HasPrefix(callee.Pkg.Pkg.Path(), p.modulePath) {
-				for k := range p.ghostsSetBy(callee) {
-					m[k] = true
+		}
+		return m
+	}
+	if fc != nil {
+		for _, cl := range fc.Clauses {
+			if cl.Kind == "sets" {
+				if mm := setsNameRe.FindStringSubmatch(cl.Expr); mm != nil {
+					m[mm[1]] = true
 				}
-				continue
 			}
-			// library function without a contract: it cannot set ghost state unless it is given a closure
+		}
+		if fc.Opts["callback"] != "" {
 			for _, a := range c.Args {
-				if _, isSig := a.Type().Underlying().(*types.Signature); isSig {
+				if mc, ok := a.(*ssa.MakeClosure); ok {
+					for k := range p.ghostsSetBy(mc.Fn.(*ssa.Function)) {
+						m[k] = true
+					}
+				} else if _, isSig := a.Type().Underlying().(*types.Signature); isSig {
 					m["*"] = true
 				}
 			}
 		}
+		return m
+	}
+	callee := c.StaticCallee()
+	if callee == nil {
+		if c.IsInvoke() {
+			if impls, ok := p.closedFor(c.Value.Type()); ok {
+				for _, T := range impls {
+					if sel := p.prog.MethodSets.MethodSet(T).Lookup(c.Method.Pkg(), c.Method.Name()); sel != nil {
+						if mv := p.prog.MethodValue(sel); mv != nil {
+							for k := range p.ghostsSetBy(mv) {
+								m[k] = true
+							}
+						}
+					}
+				}
+				return m
+			}
+		}
+		m["*"] = true
+		return m
+	}
+	if callee.Pkg != nil && strings.HasPrefix(callee.Pkg.Pkg.Path(), p.modulePath) {
+		if cfc := p.contractFor(callee); cfc != nil {
+			for _, cl := range cfc.Clauses {
+				if cl.Kind == "sets" {
+					if mm := setsNameRe.FindStringSubmatch(cl.Expr); mm != nil {
+						m[mm[1]] = true
+					}
+				}
+			}
+		}
+		for k := range p.ghostsSetBy(callee) {
+			m[k] = true
+		}
+		return m
+	}
+	// library function without a contract: it cannot set ghost state unless it is given a function value
+	for _, a := range c.Args {
+		if _, isSig := a.Type().Underlying().(*types.Signature); isSig {
+			m["*"] = true
+		}
 	}
 	return m
+}
+
+// callRuleUnits: call-graph frame rules ("only F calls G") checked syntactically over the module's SSA.
+func (p *Prog) callRuleUnits() []*Unit {
+	var out []*Unit
+	for _, r := range p.cs.CallRules {
+		u := p.newUnit(nil)
+		u.thName = r.Label
+		allowed := map[string]bool{}
+		for _, c := range r.Callers {
+			allowed[c] = true
+		}
+		var offenders []string
+		found := false
+		for fn := range ssautil.AllFunctions(p.prog) {
+			if fn.Pkg == nil || !strings.HasPrefix(fn.Pkg.Pkg.Path(), p.modulePath) || strings.HasSuffix(p.prog.Fset.Position(fn.Pos()).Filename, "_test.go") {
+				continue
+			}
+			for _, b := range fn.Blocks {
+				for _, in := range b.Instrs {
+					ci, ok := in.(ssa.CallInstruction)
+					if !ok {
+						continue
+					}
+					name := calleeName(ci.Common())
+					short := shortCallee(name)
+					if name == r.Callee || short == r.Callee || strings.HasSuffix(short, "."+r.Callee) {
+						found = true
+						caller := fn.RelString(fn.Pkg.Pkg)
+						if !allowed[caller] {
+							offenders = append(offenders, caller)
+						}
+					}
+				}
+			}
+		}
+		goal := "true"
+		if len(offenders) > 0 || !found {
+			goal = "false"
+			u.note("callgraph rule %s: offenders %v (callee found: %v)", r.Label, offenders, found)
+		}
+		if goal == "true" {
+			goal = "(= 0 0)"
+		}
+		u.obligs = append(u.obligs, &Oblig{Name: r.Label, Props: r.Props, Kind: "callgraph", Goal: goal, Unit: u})
+		out = append(out, u)
+	}
+	return out
 }
